@@ -153,7 +153,7 @@ func traceLookup(t *testing.T, o opts) {
 					}
 					if c.cancel >= 0 {
 						var cf context.CancelFunc
-						if i%2 == 1 {
+						if (c.cancel/7+int64(i))%2 == 0 {
 							// cancelled with a cause of the caller's own (an errgroup sibling failed, a
 							// supervisor gave a reason): to everyone else it is still just a cancellation
 							var cc context.CancelCauseFunc
